@@ -150,6 +150,20 @@ QueryVerdict(e) ==
         expr |-> e.expr]
   ELSE [v |-> "ok"]
 
+\* C07 on EDITED documents: a node-set is duplicate-free and in document order (the pre-order index comes from
+\* the harness's own walk of child_nodes / attributes; the attributes of one element share an index because their
+\* relative order is implementation-dependent)
+NonDecreasing(s) == \A i \in 1..(Len(s) - 1) : s[i] <= s[i + 1]
+C07Query(e) ==
+  IF Len(e.idx) = 0 THEN [v |-> "ok"]
+  ELSE IF \E i \in 1..Len(e.idx) : e.idx[i] = 0
+       THEN [v |-> "VIOLATION", why |-> "a query on an edited document returned a node that is not in the document", expr |-> e.expr]
+  ELSE IF ~NonDecreasing(e.idx)
+       THEN [v |-> "VIOLATION", why |-> "node-set of an edited document is not in document order", expr |-> e.expr, idx |-> e.idx]
+  ELSE IF \E i, j \in 1..Len(e.idx) : i # j /\ e.live[i] = e.live[j]
+       THEN [v |-> "VIOLATION", why |-> "node-set of an edited document contains a node twice", expr |-> e.expr]
+  ELSE [v |-> "ok"]
+
 Verdict(e) ==
   IF e.event = "call"
   THEN LET same     == e.pre = e.post
@@ -165,16 +179,16 @@ Verdict(e) ==
            postTree == sanePost /\ TreeInvX(P, St(e.post), cpPost, apPost, parPost)
            preTree  == IF same THEN postTree ELSE sanePre /\ TreeInvX(P, St(e.pre), cpPre, apPre, parPre)
        IN  [c12 |-> C12Verdict(e, postTree, parPost), c13 |-> C13Verdict(e, preTree, postTree, parPre, ownPre),
-            c14 |-> C14Verdict(e, postTree)]
-  ELSE IF e.event = "query" THEN [c12 |-> [v |-> "ok"], c13 |-> [v |-> "ok"], c14 |-> QueryVerdict(e)]
+            c14 |-> C14Verdict(e, postTree), c07 |-> [v |-> "ok"]]
+  ELSE IF e.event = "query" THEN [c12 |-> [v |-> "ok"], c13 |-> [v |-> "ok"], c14 |-> QueryVerdict(e), c07 |-> C07Query(e)]
   ELSE IF e.event = "crash"
   THEN \* the call (or the observation of the state it left) never returned, or took the process down: a call
        \* must return a value or an exception, and no history may leave a structure that cannot be walked
        LET x == [v |-> "VIOLATION", why |-> "a DOM call or the traversal of the state it left did not return", how |-> e.how, call |-> e.call]
-       IN  [c12 |-> x, c13 |-> x, c14 |-> x]
-  ELSE [c12 |-> [v |-> "ok"], c13 |-> [v |-> "ok"], c14 |-> [v |-> "ok"]]        \* "reset"
+       IN  [c12 |-> x, c13 |-> x, c14 |-> x, c07 |-> x]
+  ELSE [c12 |-> [v |-> "ok"], c13 |-> [v |-> "ok"], c14 |-> [v |-> "ok"], c07 |-> [v |-> "ok"]]        \* "reset"
 
-AllOk(v) == v.c12.v \in {"ok", "skip"} /\ v.c13.v \in {"ok", "skip"} /\ v.c14.v \in {"ok", "skip"}
+AllOk(v) == v.c12.v \in {"ok", "skip"} /\ v.c13.v \in {"ok", "skip"} /\ v.c14.v \in {"ok", "skip"} /\ v.c07.v = "ok"
 
 Init == l = 2
 Next == /\ l <= Len(Rec)
